@@ -175,6 +175,8 @@ func runC09(c *Ctx) {
 	rulePutForwarding(c, "ATOMIC-THROUGH-WRAPPERS")
 	ruleDefer(c, "R-DEFER", pkgs)
 	ruleStaleErr(c, "R-STALE-ERR", pkgs)
+	c09ExpectedFromRequest(c, pkStore)
+	c09RevalidateUnconditional(c, pkStore, isMarkerPath)
 	ruleErrUse(c, "R-ERRUSE", pkgs, func(string) (bool, string) { return true, "" }, c15AllowedErrUse)
 
 	// ---- writer side
